@@ -290,3 +290,42 @@ async fn one_case(
     let o = observe_cleanup(&ds, &cbase, &w, &pol).await;
     (w, pol, o)
 }
+
+/// The path helpers of object_store that the decision tree uses (Path::extension, as_ref().starts_with,
+/// parts().nth(1)), on every path of up to 3 segments over a small segment vocabulary: exhaustive on that domain.
+pub fn paths(sink: &mut Sink) {
+    use object_store::path::Path as OPath;
+    let vocab = [
+        "data", "database", "_indices", "_indicesX", "_versions", "_deletions", "_transactions", ".tmp", ".tmp_5.manifest", "a.lance", "x.", ".hidden",
+        "noext", "a.b.txn", "7.manifest", "7.manifest-u", "d.arrow", "d.bin", "u",
+    ];
+    let mut st = Stream::new("chk_path", REQ, "chk_path", "path", "option seg * (list bool * option seg)");
+    st.shard = 400;
+    let mut all: Vec<Vec<&str>> = vec![];
+    for a in vocab {
+        all.push(vec![a]);
+        for b in vocab {
+            all.push(vec![a, b]);
+            for c in ["a.lance", "x.", "noext", "7.manifest", "d.bin", ".tmp"] {
+                all.push(vec![a, b, c]);
+            }
+        }
+    }
+    for segs in all {
+        let s = segs.join("/");
+        let p = OPath::from(s.as_str());
+        assert_eq!(p.as_ref(), s, "object_store normalised the path");
+        let ext = p.extension().map(|e| e.to_string());
+        let flags: Vec<bool> = ["_versions/.tmp", "_indices", "data", "_deletions", "_transactions"].iter().map(|pre| p.as_ref().starts_with(pre)).collect();
+        let second = p.parts().nth(1).map(|x| x.as_ref().to_string());
+        let out = format!(
+            "({}, ({}, {}))",
+            coq::opt(ext.as_ref().map(|e| cseg(e))),
+            coq::list(flags.iter().map(|b| coq::b(*b))),
+            coq::opt(second.as_ref().map(|e| cseg(e)))
+        );
+        sink.count("path");
+        st.push(cpath(&s), out, json!({"path": s, "extension": ext, "starts_with": flags, "second": second}));
+    }
+    sink.add(st);
+}
